@@ -5,6 +5,10 @@ ROOT = os.path.dirname(os.path.dirname(os.path.abspath(__file__)))
 
 # id -> (level, technique, level text, level note, design ref)
 CLAIMED = {
+ "C14": ("fault_enumeration", "runtime fault injection at the I/O boundary: failing sinks at enumerated byte offsets, every strict prefix, failing io.ReaderAt at enumerated call indexes, with error-must-surface / rows-equal oracles",
+         "For every enumerated fault point: (a) a sink failing at byte offset k (hard error, short write with error, one transient failure) makes some Write/Flush/Close return an error without panicking, over 8 writer scenarios (default, unbuffered, file- and chunk-backed page buffers, deferred bloom filters, SortingWriter, concurrent row groups, WriteRowGroup copy path); all offsets are enumerated for files <= 4 KiB, call boundaries +-1 plus PRNG offsets otherwise; (b) every strict prefix (all lengths <= 4 KiB, structural boundaries +-1 otherwise) is rejected by OpenFile or by the full read; (c) a ReadAt fault (error / short+error / early EOF) at each call index of open+full read yields an error or exactly the clean rows.",
+         "Faults respect the io.Writer/io.ReaderAt contracts. Values never contain PAR1/PARE. Syscall-level (strace) injection on real files (ReadFrom/copy_file_range paths) is not exercised.",
+         "DESIGN.md §4 C14"),
  "C16": ("exploration", "runtime monitoring: deep-snapshot comparison of caller-held values across PRNG later-activity histories, with a poison-on-release hook in the slice pools (build tag verif) that makes dangling aliases deterministic; thorough tier also under the race detector",
          "Held on every explored history: Go values filled by GenericReader.Read and retained by shallow copy while the batch slice is reused, cloned Rows, and un-cloned Rows (until the next call on their reader) are bit-identical to their snapshot after later reads, seeks, Reset, Close, other readers of the same and other files, writer churn through the shared pools and GC; rows and []Row passed to Write/WriteRows/SortingWriter/sorted buffers/DedupeRowWriter are unchanged afterwards. Because released pool memory is overwritten with 0xDB, an alias that survives a release shows up on the first comparison instead of depending on pool reuse. Sampling of histories: exploration.",
          "Hook: internal/memory.putSliceToPool poisons released slices when built with -tags verif (VERIF_POISON=0 disables). Memory not managed by the slice pools is outside the hook's reach.",
